@@ -16,7 +16,8 @@ import time
 from vf.core import (Ctx, Violation, HarnessError, StopStage, WatchdogTimeout,
                      digest, tb_in_package, short_tb)
 
-WATCHDOG_S = 20
+WATCHDOG_S = 10
+STOP_MARKER = [None]      # path of a file whose existence tells every shard of this stage to stop (set in main)
 
 
 def _check_overlay():
@@ -69,19 +70,33 @@ def classify_unexpected(exc):
 
 def run_one(stage, case, ctx, journal=None):
     """Run a single case with watchdog; returns None or a Violation (not raised)."""
+    if STOP_MARKER[0] and os.path.exists(STOP_MARKER[0]):
+        raise StopStage()          # another shard hit the watchdog: the remaining cases would mostly crawl or hang too
     if journal is not None:
         journal.write(stage["name"], case)
     ctx.begin(case)
-    signal.setitimer(signal.ITIMER_REAL, WATCHDOG_S)
+    signal.setitimer(signal.ITIMER_REAL, stage.get("watchdog_s", WATCHDOG_S))
     try:
         stage["run"](case, ctx)
         return None
     except Violation as v:
         return v
     except WatchdogTimeout:
-        return Violation("timeout/watchdog", "case did not finish within %d s" % WATCHDOG_S)
+        if STOP_MARKER[0]:
+            try:
+                open(STOP_MARKER[0], "w").close()
+            except OSError:
+                pass
+        return Violation("timeout/watchdog", "case did not finish within %d s" % stage.get("watchdog_s", WATCHDOG_S))
     except RecursionError as e:
         return Violation("unexpected/RecursionError", short_tb(e))
+    except MemoryError as e:
+        if STOP_MARKER[0]:
+            try:
+                open(STOP_MARKER[0], "w").close()
+            except OSError:
+                pass
+        return Violation("timeout/memory", "the case exhausted the worker's memory limit (run-away computation)")
     except Exception as e:
         v = classify_unexpected(e)
         if v is None:
@@ -276,6 +291,15 @@ def main():
 
     signal.signal(signal.SIGALRM, _alarm)
     os.environ["VERIF_SHARD"] = str(a.shard)
+    if "LD_PRELOAD" not in os.environ:
+        # a run-away case (e.g. a search that no longer terminates) must not exhaust the machine before the watchdog
+        # fires: cap the address space of unsanitised workers (sanitised ones reserve terabytes of shadow memory)
+        try:
+            import resource
+            lim = int(float(os.environ.get("VERIF_WORKER_MEM_GB", "2.5")) * (1 << 30))
+            resource.setrlimit(resource.RLIMIT_AS, (lim, lim))
+        except Exception:
+            pass
     t0 = time.time()
     out = {"harness_error": None}
     try:
@@ -315,6 +339,8 @@ def main():
                 out["violation"] = None if v is None else {"bucket": v.bucket, "message": v.msg}
         else:
             stage = next(s for s in stages if s["name"] == a.stage)
+            if a.out:
+                STOP_MARKER[0] = os.path.join(os.path.dirname(a.out), "STOP-" + stage["name"])
             known = [k for k in a.known.split("|") if k]
             ctx = Ctx(stage["name"], known, distinct_by_construction=(stage["kind"] == "enum"))
             journal = Journal(a.journal)
